@@ -342,6 +342,10 @@ def _open_call_token_created(
     """
     try:
         raw = base64.b64decode(token, validate=True)
+        if base64.b64encode(raw) != bytes(token):
+            # Only the canonical encoding the server minted is a token: a
+            # re-encoding (non-zero trailing bits, altered padding) is not.
+            raise ValueError("non-canonical base64")
     except Exception as exc:
         raise _RpcHttpError(
             RuntimeError("Malformed call token"),
@@ -623,6 +627,10 @@ def _open_cursor_token(
     """
     try:
         raw = base64.b64decode(token, validate=True)
+        if base64.b64encode(raw) != bytes(token):
+            # Only the canonical encoding the server minted is a token: a
+            # re-encoding (non-zero trailing bits, altered padding) is not.
+            raise ValueError("non-canonical base64")
     except Exception as exc:
         raise _RpcHttpError(
             RuntimeError("Malformed state token"),
